@@ -535,6 +535,61 @@ example : ((({ args := [(.name "p", .v 1), (.name "q", .v 2), (.name "r", .v 3)]
     { step := some 2 }).toOption.map (fun c' => sg3.allPositional c'.args)) = some [.d "p", .v 2, .d "r"] := by
   decide
 
+/-! ### Negative and out-of-range indices -/
+
+theorem posView_length (s : Sig) (c : Cfg) : (c.posView s).length = (s.allPositional c.args).length := by
+  simp [Cfg.posView]
+
+/-- **Negative indices count from the end of the reported list**: for `-len ≤ i < 0`, reading,
+    assigning and deleting at `i` are exactly the same operation at `i + len(cfg[:])`. -/
+theorem C03_negative_index_counts_from_end (s : Sig) (c : Cfg) (i : Int) (v : Val) (hi : i < 0)
+    (hn : 0 ≤ i + ((s.allPositional c.args).length : Int)) :
+    c.getItem s i = c.getItem s (i + ((s.allPositional c.args).length : Int)) ∧
+    c.setItem s i v = c.setItem s (i + ((s.allPositional c.args).length : Int)) v ∧
+    c.delItem s i = c.delItem s (i + ((s.allPositional c.args).length : Int)) := by
+  have h2 : ¬ (i + ((s.allPositional c.args).length : Int) < 0) := by omega
+  refine ⟨?_, ?_, ?_⟩
+  · unfold Cfg.getItem Py.getIdx
+    simp only [posView_length, hi, h2, if_true, if_false]
+  · unfold Cfg.setItem
+    simp only [hi, h2, if_true, if_false]
+  · unfold Cfg.delItem
+    simp only [hi, h2, if_true, if_false]
+
+/-- **An index below `-len(cfg[:])` is rejected with `IndexError`** by reads, assignments and
+    deletions alike (it never wraps around a second time), and — the result being an error — nothing
+    is stored. -/
+theorem C03_index_below_range_raises (s : Sig) (c : Cfg) (i : Int) (v : Val)
+    (hn : i + ((s.allPositional c.args).length : Int) < 0) :
+    c.getItem s i = .error .indexError ∧ c.setItem s i v = .error .indexError ∧
+    c.delItem s i = .error .indexError := by
+  have hi : i < 0 := by omega
+  refine ⟨?_, ?_, ?_⟩
+  · unfold Cfg.getItem Py.getIdx
+    simp only [posView_length, hi, hn, if_true]
+  · unfold Cfg.setItem
+    simp only [hi, hn, if_true]
+  · unfold Cfg.delItem
+    simp [hi, hn]
+
+/-- **An index at or beyond `len(cfg[:])` is rejected with `IndexError`** by reads and deletions. -/
+theorem C03_index_above_range_raises (s : Sig) (c : Cfg) (i : Int)
+    (hn : ((s.allPositional c.args).length : Int) ≤ i) :
+    c.getItem s i = .error .indexError ∧ c.delItem s i = .error .indexError := by
+  have hi : ¬ i < 0 := by omega
+  refine ⟨?_, ?_⟩
+  · unfold Cfg.getItem Py.getIdx
+    simp only [posView_length, hi, if_false]
+    have : (c.posView s)[i.toNat]? = none := by
+      apply List.getElem?_eq_none
+      rw [posView_length]; omega
+    simp [this]
+  · unfold Cfg.delItem
+    simp only [hi, if_false]
+    have : (decide False || decide (i ≥ ((s.allPositional c.args).length : Int))) = true := by
+      simp only [Bool.or_eq_true, decide_eq_true_eq]; right; exact hn
+    rw [if_pos this]
+
 /-! ### Attribute edits behave like a dict restricted to the signature -/
 
 /-- A name is accepted by `setattr` exactly when it names a keyword-capable parameter, or the
